@@ -1,4 +1,5 @@
 import MxV.Model.MsimpleTheory
+import MxV.Props.C04
 /-! # C11 — removing a child restores the behaviour the element had without it
 On `Tame` templates the whole observable state of the model is the insertion-ordered list of
 live children, so the property is the *rebuild* theorem: every reachable state — after any
@@ -58,7 +59,37 @@ theorem C11_tame (p : Particle) (ht : isTame p = true) (ops : List Op) :
 example : let p : Particle := .seq 1 (some 1) [.elem 0 1 (some 1), .seq 0 (some 1) [.elem 1 1 (some 1), .elem 2 1 (some 1)]]
     required p (run p [.add 1 0 none, .add 2 1 none, .rm 2]) = [] ∧
     required p (run p [.add 1 0 none, .add 2 1 none]) = [2] := by decide
+
+/-! ## attribute side (model `Element.setAttr`, tied to the code by the element engine this check runs) -/
+section Attr
+open Element Values
+
+/-- attribute side of "removing restores": setting an attribute that was not set and then assigning
+None gives back the very store (order included), for every table, validator, store, key, value -/
+theorem attr_set_then_remove (validate : Nat → PyVal → Res) (t : Tbl) (s s1 : Store) (key : String) (v : PyVal)
+    (hv : v ≠ .none) (hfresh : s.any (·.1 == normKey key) = false)
+    (h : setAttr validate t s key v = .ok s1) : setAttr validate t s1 key .none = .ok s := by
+  rw [C04.setAttr_eq validate t s key v hv] at h
+  have hs1 : s1 = storeSet s (normKey key) v := by
+    split at h
+    · cases h
+    · split at h
+      · cases h; rfl
+      · cases h
+      · cases h
+  subst hs1
+  show Except.ok (storeDel (storeSet s (normKey key) v) (normKey key)) = Except.ok s
+  congr 1
+  unfold storeSet storeDel
+  simp only [hfresh, Bool.false_eq_true, if_false, List.filter_append]
+  have : s.filter (fun e => e.1 != normKey key) = s := by
+    rw [List.filter_eq_self]; intro e he
+    have := List.any_eq_false.mp hfresh e he
+    simpa using this
+  simp [this]
+end Attr
 end C11
 
 #print axioms C11.C11_rebuild
 #print axioms C11.C11_tame
+#print axioms C11.attr_set_then_remove
